@@ -2,7 +2,7 @@
 # usage: [SA=/tmp/sa7] try_round.sh <prop> [other props...] — first look: run the check(s) against every deliverable of <prop> in $SA/out/<prop>
 # (a* should fire, r* should be silent)
 P="$1"; shift
-for d in ${SA:-/tmp/sa9}/out/$P/*/; do
+for d in ${SA:-/tmp/sa10}/out/$P/*/; do
   n=$(basename "$d"); f=$d/patch.diff
   [ -f "$f" ] || continue
   echo "== $P/$n"
